@@ -155,6 +155,19 @@ def run(key):
         wrong = int((mp != np.broadcast_to(labels, lead + (N,))).sum())
         return viol(f'{model}: {wrong} of {mp.size} observations are not assigned to their true class '
                     f'after {its} iterations')
+    if not integ and its <= 2:
+        # the posterior handed out by fit_predict (second public route to the same quantity)
+        try:
+            fp = np.asarray(M.trainer(model).fit_predict(data, initialization=init, iterations=its, **opts))
+        except Exception as e:  # noqa
+            return viol(f'{model}: fit_predict raised on separable data: {e!r}')
+        if fp.shape != lead + (K, N) or not np.isfinite(fp).all():
+            return viol(f'{model}: fit_predict posterior shape {fp.shape} / non-finite')
+        mpf = fp.argmax(-2)
+        if not np.array_equal(mpf, np.broadcast_to(labels, lead + (N,))):
+            wrong = int((mpf != np.broadcast_to(labels, lead + (N,))).sum())
+            return viol(f'{model}: fit_predict: {wrong} of {mpf.size} observations are not assigned to their '
+                        f'true class after {its} iterations')
     # parameters point at the prototypes
     limit_tight = 10 * pert + 1e-6
     worst = 0.0
